@@ -139,9 +139,11 @@ RULE = ("cases: seeded collections of 1-3 series (lengths <= 4, ndim 1-2, equal/
 def run(ctx):
     ctx.rule = RULE
     src = build.py_build()
-    cfg = "MC_DBA_q.cfg" if ctx.quick else "MC_DBA_t.cfg"
-    ctx.log("Act M: %s" % cfg)
-    ctx.add_mc(tlc.model_check("MC_DBA", cfg, workers=12))
+    # MC_DBA_q carries the invariant SearchAgrees (the search form used on traces decides the declarative
+    # Allowed); it is quadratic in the number of choices, so the larger thorough slice checks the theorems only
+    for cfg in (["MC_DBA_q.cfg"] if ctx.quick else ["MC_DBA_q.cfg", "MC_DBA_t.cfg"]):
+        ctx.log("Act M: %s" % cfg)
+        ctx.add_mc(tlc.model_check("MC_DBA", cfg, workers=12))
     return judge(ctx, src, items(ctx))
 
 
